@@ -41,4 +41,6 @@ class C09:
 
 from .c15 import C15  # noqa: E402
 
-PROPS = {"C09": C09, "C15": C15}
+from .c18 import C18  # noqa: E402
+
+PROPS = {"C09": C09, "C15": C15, "C18": C18}
